@@ -71,6 +71,8 @@ def run_checker(ctx, blocks, tag, timeout=300):
 
 STALE_READ_SIG = ("plain read (get/hget/llen/scard/...) answered from the local store of the replica that believes it leads, "
                   "no ReadIndex: misses a write acknowledged through another replica; history linearizable without plain reads")
+# (the signature text is kept for the known-findings match; the test behind it is now the stronger "linearizable
+#  once plain reads may take effect early", theorem C04_protocol_linearizable_relaxed)
 NOOP_REPLIES = {("lpop", "n"), ("setnx", "i0"), ("sadd", "i0"), ("srem", "i0"), ("del", "i0"), ("setox", "n"), ("setxx", "n")}
 
 
@@ -240,8 +242,12 @@ def judge_run(ctx, d, label):
         v = res.get(h, "undecided").split(" ")[0]
         verdicts[v] = verdicts.get(v, 0) + 1
         if v == "nonlin":
-            # is the violation still there when every plain read is dropped? (then it is about writes alone)
-            wo = [o for o in hs[h] if o[2].split(":")[0] not in READS or (len(o) > 4 and o[4].startswith("F"))]
+            # is the violation still there when every plain read may take effect BEFORE its invocation (its
+            # invocation time moved back to 0)? That is exactly what the protocol guarantees for plain reads
+            # (C04_protocol_linearizable_relaxed): a read may be stale, but it returns the state after a
+            # committed prefix and never runs ahead of its reply. The final replica reads are not relaxed.
+            wo = [(["0"] + list(o[1:])) if (o[2].split(":")[0] in READS and not (len(o) > 4 and o[4].startswith("F"))) else list(o)
+                  for o in hs[h]]
             r2 = run_checker(ctx, [("w", wo)], label + "-w")
             writes_only = r2.get("w", "").startswith("nonlin")
             n_same = sum(1 for f in fails if f.get("writes_only") == writes_only)
@@ -255,7 +261,7 @@ def judge_run(ctx, d, label):
                           run=label, mode=meta.get("mode"), engine=meta.get("engine"), seed=meta.get("seed"),
                           nemesis=meta.get("nemesis"), violates_with_writes_only=writes_only),
                 what="recorded history of %s is NOT linearizable (verified checker; minimised to %d operations: %s)%s"
-                     % (h, len(small), ",".join(kinds), "" if writes_only else "; linearizable once plain reads are ignored"),
+                     % (h, len(small), ",".join(kinds), "" if writes_only else "; linearizable once plain reads may take effect before their invocation (stale reads)"),
                 signature=None if writes_only else STALE_READ_SIG))
         elif v == "outoffuel":
             real_mism.append((label + ":" + h, "outoffuel", "excluded by theorem check_fuel_sufficient", None))
